@@ -50,7 +50,23 @@ func edgeLess(a, b edge) bool {
 type presT struct {
 	Promise bool // hand the result over through apifu.Go
 	Nil     bool // an empty result is the untyped nil
+	Err     int  // 0: no error; 1: the call fails with the error "getter-error-<call index>"; 2: a typed nil error value
+	Partial bool // a failing call returns the first half of its edges beside the error (otherwise nil)
+	Delay   int  // a promise resolves after Delay x 300 microseconds (orders the resolutions)
 }
+
+const (
+	errNone     = 0
+	errReal     = 1
+	errTypedNil = 2
+)
+
+// an error type whose nil pointer is a non-nil error interface value
+type typedErr struct{}
+
+func (*typedErr) Error() string { return "typed nil error dereferenced" }
+
+const totalCountErrorMessage = "total-count-error"
 
 const (
 	getterExact    = 0 // first/last |limit| edges of the range in (time, id) order
@@ -64,6 +80,9 @@ type workReq struct {
 	Pres     []presT // per getter call; calls beyond the list are synchronous slices
 	TypedNil bool    // empty results that are not the untyped nil: typed nil slice instead of empty slice
 	Query    string
+	TCErr    bool // ResolveTotalCount fails
+	TCAsync  bool // ResolveTotalCount answers through apifu.Go
+	Zone     int  // EdgeCursor builds the cursor with NewTimeBasedCursor from a time.Time in this zone (seconds east)
 }
 
 type workResp struct {
@@ -71,6 +90,8 @@ type workResp struct {
 	Body    string
 	Triples [][3]string // min, max (nanoseconds since the epoch, decimal), limit
 	Returns [][]edge    // what the getter answered to each call, in the order it returned the edges
+	Raised  []int       // per call: errNone / errReal / errTypedNil
+	TCCalls int         // calls of ResolveTotalCount
 }
 
 // zbig writes an integer of any size.  (internal/sexp prints values below 2^61 in decimal, but the
@@ -103,6 +124,8 @@ type workerState struct {
 	calls   int
 	triples [][3]string
 	returns [][]edge
+	raised  []int
+	tcCalls int
 }
 
 func newAPI(st *workerState) *apifu.API {
@@ -133,11 +156,24 @@ func newAPI(st *workerState) *apifu.API {
 					ret[a], ret[b] = ret[b], ret[a]
 				}
 			}
-			st.returns = append(st.returns, append([]edge{}, ret...))
 			p := presT{}
 			if i < len(st.req.Pres) {
 				p = st.req.Pres[i]
 			}
+			var gerr error
+			switch p.Err {
+			case errReal:
+				gerr = fmt.Errorf("getter-error-%d", i)
+				if p.Partial {
+					ret = ret[:len(ret)/2]
+				} else {
+					ret = nil
+				}
+			case errTypedNil:
+				gerr = (*typedErr)(nil)
+			}
+			st.returns = append(st.returns, append([]edge{}, ret...))
+			st.raised = append(st.raised, p.Err)
 			var res interface{} = ret
 			if len(ret) == 0 {
 				switch {
@@ -149,13 +185,36 @@ func newAPI(st *workerState) *apifu.API {
 					res = []edge{}
 				}
 			}
-			if p.Promise {
-				return apifu.Go(ctx.Context, func() (interface{}, error) { return res, nil }), nil
+			if p.Err == errReal && !p.Partial {
+				res = nil
 			}
-			return res, nil
+			if p.Promise {
+				delay := time.Duration(p.Delay) * 300 * time.Microsecond
+				return apifu.Go(ctx.Context, func() (interface{}, error) {
+					if delay > 0 {
+						time.Sleep(delay)
+					}
+					return res, gerr
+				}), nil
+			}
+			return res, gerr
+		},
+		ResolveTotalCount: func(ctx graphql.FieldContext) (interface{}, error) {
+			st.tcCalls++
+			n := len(st.req.Edges)
+			var err error
+			if st.req.TCErr {
+				err = fmt.Errorf(totalCountErrorMessage)
+			}
+			if st.req.TCAsync {
+				return apifu.Go(ctx.Context, func() (interface{}, error) { return n, err }), nil
+			}
+			return n, err
 		},
 		EdgeCursor: func(e interface{}) apifu.TimeBasedCursor {
-			return apifu.TimeBasedCursor{Nano: e.(edge).Nano, Id: e.(edge).Id}
+			// the library's constructor, from a time.Time carrying a location: the cursor must not depend on it
+			t := time.Unix(0, e.(edge).Nano).In(time.FixedZone("", st.req.Zone))
+			return apifu.NewTimeBasedCursor(t, e.(edge).Id)
 		},
 		EdgeFields: map[string]*graphql.FieldDefinition{
 			"node": {
@@ -187,13 +246,13 @@ func workerMain() {
 				fmt.Fprintln(os.Stderr, "worker: bad request:", e)
 				os.Exit(3)
 			}
-			st.req, st.calls, st.triples, st.returns = &req, 0, nil, nil
+			st.req, st.calls, st.triples, st.returns, st.raised, st.tcCalls = &req, 0, nil, nil, nil, 0
 			body, _ := json.Marshal(map[string]interface{}{"query": req.Query})
 			hr := httptest.NewRequest("POST", "/graphql", bytes.NewReader(body))
 			hr.Header.Set("Content-Type", "application/json")
 			w := httptest.NewRecorder()
 			api.ServeGraphQL(w, hr)
-			resp, _ := json.Marshal(workResp{Status: w.Code, Body: w.Body.String(), Triples: st.triples, Returns: st.returns})
+			resp, _ := json.Marshal(workResp{Status: w.Code, Body: w.Body.String(), Triples: st.triples, Returns: st.returns, Raised: st.raised, TCCalls: st.tcCalls})
 			out.Write(resp)
 			out.WriteByte('\n')
 			out.Flush()
@@ -334,6 +393,8 @@ type argSpec struct {
 	After, Before curArg
 	From, To      *time.Time
 	Info          bool
+	Total         bool // totalCount is selected
+	TotalFirst    bool // ... before edges and pageInfo
 }
 
 func intp(i int) *int { return &i }
@@ -368,6 +429,11 @@ func (a argSpec) query() string {
 	if a.Info {
 		sel += " pageInfo{hasPreviousPage hasNextPage startCursor endCursor}"
 	}
+	if a.Total && a.TotalFirst {
+		sel = "totalCount " + sel
+	} else if a.Total {
+		sel += " totalCount"
+	}
 	return "{connection" + args + "{" + sel + "}}"
 }
 
@@ -396,6 +462,7 @@ func (a argSpec) sexp() sexp.Node {
 // ---------------------------------------------------------------------------------------------
 
 type obsT struct {
+	total                       *int
 	crashed, isError, malformed bool
 	edges                       []edge
 	hasInfo                     bool
@@ -449,6 +516,7 @@ func observe(resp workResp, crashed, hung bool) (obsT, sexp.Node) {
 					HasPreviousPage, HasNextPage bool
 					StartCursor, EndCursor       string
 				}
+				TotalCount *int
 			}
 		}
 		Errors []struct{ Message string }
@@ -457,7 +525,20 @@ func observe(resp workResp, crashed, hung bool) (obsT, sexp.Node) {
 		return obsT{malformed: true}, sexp.T("malformed", sexp.Int(resp.Status))
 	}
 	if len(body.Errors) > 0 || body.Data == nil || body.Data.Connection == nil {
-		return obsT{isError: true}, sexp.T("error")
+		// which error: one the harness getter raised (by call index), the harness's total count
+		// error, or anything else (the library's own messages are not compared)
+		var ms []sexp.Node
+		for _, e := range body.Errors {
+			var k int
+			if n, err := fmt.Sscanf(e.Message, "getter-error-%d", &k); err == nil && n == 1 && e.Message == fmt.Sprintf("getter-error-%d", k) {
+				ms = append(ms, sexp.T("g", sexp.Int(k)))
+			} else if e.Message == totalCountErrorMessage {
+				ms = append(ms, sexp.T("tc"))
+			} else {
+				ms = append(ms, sexp.T("other"))
+			}
+		}
+		return obsT{isError: true}, sexp.T("error", ms...)
 	}
 	c := body.Data.Connection
 	o := obsT{}
@@ -482,7 +563,8 @@ func observe(resp workResp, crashed, hung bool) (obsT, sexp.Node) {
 		o.start, o.end = c.PageInfo.StartCursor, c.PageInfo.EndCursor
 		info = sexp.T("info", sexp.Bool(o.hasPrev), sexp.Bool(o.hasNext), optCursorString(o.start), optCursorString(o.end))
 	}
-	return o, sexp.T("page", sexp.L(es...), sexp.L(cs...), info)
+	o.total = c.TotalCount
+	return o, sexp.T("page", sexp.L(es...), sexp.L(cs...), info, optInt(c.TotalCount))
 }
 
 // ---------------------------------------------------------------------------------------------
@@ -494,19 +576,23 @@ type env struct {
 	edges    []edge
 	getter   int
 	typedNil bool
+	tcErr    bool
+	tcAsync  bool
+	zone     int
 }
 
 func presSexp(ps []presT) sexp.Node {
 	var l []sexp.Node
 	for _, p := range ps {
-		l = append(l, sexp.L(sexp.Bool(p.Promise), sexp.Bool(p.Nil)))
+		l = append(l, sexp.L(sexp.Bool(p.Promise), sexp.Bool(p.Nil), sexp.Int(p.Err), sexp.Bool(p.Partial), sexp.Int(p.Delay)))
 	}
 	return sexp.L(l...)
 }
 
 func (e *env) step(a argSpec, ps []presT) (obsT, sexp.Node) {
 	skipped := e.run.hangs >= maxHangs
-	resp, crashed, hung := e.run.do(&workReq{Edges: e.edges, Getter: e.getter, Pres: ps, TypedNil: e.typedNil, Query: a.query()})
+	resp, crashed, hung := e.run.do(&workReq{Edges: e.edges, Getter: e.getter, Pres: ps, TypedNil: e.typedNil, Query: a.query(),
+		TCErr: e.tcErr, TCAsync: e.tcAsync, Zone: e.zone})
 	o, on := observe(resp, crashed, hung)
 	if skipped {
 		on = sexp.T("skipped-after-hangs")
@@ -520,9 +606,14 @@ func (e *env) step(a argSpec, ps []presT) (obsT, sexp.Node) {
 		for _, x := range resp.Returns[i] {
 			ret = append(ret, edgeNode(x.Nano, x.Id))
 		}
-		ts = append(ts, sexp.L(zbig(mn), zbig(mx), zbig(lim), sexp.L(ret...)))
+		ts = append(ts, sexp.L(zbig(mn), zbig(mx), zbig(lim), sexp.L(ret...), sexp.Int(resp.Raised[i])))
 	}
-	return o, sexp.T("step", a.sexp(), sexp.T("info", sexp.Bool(a.Info)), sexp.T("pres", presSexp(ps)),
+	tc := sexp.T("val", sexp.Int(len(e.edges)))
+	if e.tcErr {
+		tc = sexp.T("err")
+	}
+	return o, sexp.T("step", a.sexp(), sexp.T("info", sexp.Bool(a.Info)), sexp.T("total", sexp.Bool(a.Total)), sexp.T("tc", tc),
+		sexp.T("tccalls", sexp.Int(resp.TCCalls)), sexp.T("pres", presSexp(ps)),
 		sexp.T("obs", on), sexp.T("triples", sexp.L(ts...)))
 }
 
@@ -644,17 +735,55 @@ func randomPres(r *rng.R) []presT {
 	case 0:
 		return nil // all synchronous slices
 	case 1:
-		return []presT{{true, false}, {true, false}, {true, false}}
+		return []presT{{Promise: true}, {Promise: true}, {Promise: true}}
 	case 2:
-		return []presT{{true, true}, {true, true}, {true, true}}
+		return []presT{{Promise: true, Nil: true}, {Promise: true, Nil: true}, {Promise: true, Nil: true}}
 	case 3:
-		return []presT{{false, true}, {false, true}, {false, true}}
+		return []presT{{Nil: true}, {Nil: true}, {Nil: true}}
 	}
 	ps := make([]presT, 3)
 	for i := range ps {
-		ps[i] = presT{r.Bool(), r.Bool()}
+		ps[i] = presT{Promise: r.Bool(), Nil: r.Bool()}
 	}
 	return ps
+}
+
+// withErrors makes some of the calls fail: synchronously, through the promise, several at once,
+// with or without a partial result beside the error, as a typed nil error value; promises
+// resolve in a random order (Delay)
+func withErrors(r *rng.R, ps []presT) []presT {
+	out := make([]presT, 3)
+	copy(out, ps)
+	mode := r.Intn(8)
+	for i := range out {
+		out[i].Delay = r.Intn(4)
+		out[i].Partial = r.Bool()
+		switch mode {
+		case 0: // exactly one call fails
+		case 1, 2, 3: // each call fails with probability 1/2
+			if r.Bool() {
+				out[i].Err = errReal
+			}
+		case 4: // typed nil error values only
+			if r.Bool() {
+				out[i].Err = errTypedNil
+			}
+		default: // anything
+			out[i].Err = rng.Pick(r, []int{errNone, errNone, errReal, errReal, errTypedNil})
+		}
+	}
+	if mode == 0 {
+		out[r.Intn(3)].Err = errReal
+	}
+	return out
+}
+
+// zones for the time.Time values the harness's EdgeCursor hands to NewTimeBasedCursor
+var zones = []int{0, 5 * 3600, -(11*3600 + 1800), 14 * 3600}
+
+func randomEnv(r *rng.R, run *runner, d []edge) *env {
+	return &env{run: run, edges: d, getter: r.Intn(3), typedNil: r.Bool(),
+		tcErr: r.Chance(1, 6), tcAsync: r.Bool(), zone: rng.Pick(r, zones)}
 }
 
 var extremeTimes = []int64{math.MinInt64, math.MinInt64 + 1, -5, 0, 7, math.MaxInt64 - 1, math.MaxInt64}
@@ -880,7 +1009,8 @@ func main() {
 		}
 
 		// D. random data sets (adjacent nanoseconds, extremes of int64, ids with prefixes / upper
-		// case / non-ASCII / empty) and random arguments (far DateTimes, foreign cursors)
+		// case / non-ASCII / empty) and random arguments (far DateTimes, foreign cursors); one in
+		// five with failing getter calls, one in three selecting totalCount
 		nRandom := 6000
 		if thorough {
 			nRandom = 600000
@@ -888,9 +1018,67 @@ func main() {
 		for i := 0; i < nRandom; i++ {
 			h.Case(func(r *rng.R) sexp.Node {
 				d := randomDataset(r)
-				e := &env{run: run, edges: d, getter: r.Intn(3), typedNil: r.Bool()}
-				return e.single(randomArgs(r, d), randomPres(r))
+				e := randomEnv(r, run, d)
+				a := randomArgs(r, d)
+				a.Total, a.TotalFirst = r.Chance(1, 3), r.Bool()
+				ps := randomPres(r)
+				if r.Chance(1, 5) {
+					ps = withErrors(r, ps)
+				}
+				return e.single(a, ps)
 			})
+		}
+
+		// G. failing getter calls and totalCount.  G1: a request with three range queries (after and
+		// before cursors on different timestamps), every combination of {sync, promise} x {no error,
+		// error, typed nil error} per call x pageInfo / totalCount selected or not
+		{
+			base := argSpec{After: curOf(100, "a"), Before: curOf(300, "a")}
+			for code := 0; code < 6*6*6; code++ {
+				for selc := 0; selc < 4; selc++ {
+					code, selc := code, selc
+					h.Case(func(r *rng.R) sexp.Node {
+						ps := make([]presT, 3)
+						c := code
+						for i := range ps {
+							ps[i] = presT{Promise: c%2 == 1, Err: c / 2 % 3, Nil: r.Bool(), Partial: r.Bool(), Delay: r.Intn(4)}
+							c /= 6
+						}
+						a := base
+						a.Info, a.Total, a.TotalFirst = selc&1 == 1, selc&2 == 2, r.Bool()
+						if r.Bool() {
+							a.First = intp(rng.Pick(r, []int{0, 1, 10}))
+						} else {
+							a.Last = intp(rng.Pick(r, []int{0, 1, 10}))
+						}
+						e := &env{run: run, edges: shuffled(r, d0), getter: r.Intn(3), typedNil: r.Bool(),
+							tcErr: r.Chance(1, 4), tcAsync: r.Bool(), zone: rng.Pick(r, zones)}
+						return e.single(a, ps)
+					})
+				}
+			}
+		}
+		// G2: the argument grid (fewer values) with random failures, hand-overs and resolution orders
+		nG2 := 8
+		if thorough {
+			nG2 = 200
+		}
+		for _, d := range gridSets[:2] {
+			for _, after := range []curArg{nil, curOf(100, "a"), curOf(200, "a")} {
+				for _, before := range []curArg{nil, curOf(200, "b"), curOf(300, "a")} {
+					for _, x := range []fl{{intp(0), nil}, {intp(2), nil}, {nil, intp(0)}, {nil, intp(10)}} {
+						for rep := 0; rep < nG2; rep++ {
+							d, after, before, x := d, after, before, x
+							h.Case(func(r *rng.R) sexp.Node {
+								e := randomEnv(r, run, shuffled(r, d))
+								a := argSpec{First: x.first, Last: x.last, After: after, Before: before,
+									From: rng.Pick(r, fromGrid), To: rng.Pick(r, toGrid), Info: r.Bool(), Total: r.Bool(), TotalFirst: r.Bool()}
+								return e.single(a, withErrors(r, randomPres(r)))
+							})
+						}
+					}
+				}
+			}
 		}
 
 		// E. walks over the pages: every page size, both directions
@@ -930,7 +1118,7 @@ func main() {
 							case 0:
 								return nil
 							case 1:
-								return []presT{{true, false}, {true, false}, {true, false}}
+								return []presT{{Promise: true}, {Promise: true}, {Promise: true}}
 							}
 							return randomPres(sub)
 						})
